@@ -278,6 +278,9 @@ class PropertyRun:
                 seen = set()
                 definite = []
                 for ob in obs:
+                    if ob.result == 'sat' and ob.kind == 'exc-post' and not confirmed and hasattr(c, 'replay_injected') and isinstance(ob.meta, dict):
+                        confirmed = self.replay_injected(rep.qualname, c, cfg, ob, seen)
+                for ob in obs:
                     if ob.result == 'sat' and ob.kind not in ('loop-pres', 'assumed-pattern') and not confirmed:
                         confirmed = self.replay_counter_model(rep.qualname, c, cfg, ob, seen, scope=None)
                 if not confirmed:
@@ -399,6 +402,30 @@ class PropertyRun:
             self.replay_errors = getattr(self, 'replay_errors', [])
             if len(self.replay_errors) < 3:
                 self.replay_errors.append(traceback.format_exc()[-800:])
+        return False
+
+    def replay_injected(self, qualname, c, cfg, ob, seen):
+        """refuted exceptional postcondition on a path on which an assumed callable raised (an injected environment
+        failure): the contract re-creates that failure around the REAL function (a model / generator that raises
+        that exception class at that point) and reports what it observes"""
+        key = json.dumps(['injected', cfg, ob.meta], sort_keys=True, default=str)
+        if key in seen:
+            return False
+        seen.add(key)
+        info = {'property': self.pid, 'obligation': ob.name, 'function': qualname, 'cfg': cfg, 'injected': ob.meta,
+                'solver': {'result': 'sat', 'backend': ob.backend, 'seconds': round(ob.seconds, 3)}}
+        try:
+            viol = c.replay_injected(cfg, ob.meta.get('raised'), ob.meta.get('site'))
+        except Exception:
+            self.replay_errors = getattr(self, 'replay_errors', [])
+            if len(self.replay_errors) < 3:
+                self.replay_errors.append(traceback.format_exc()[-800:])
+            return False
+        info['contract_violations'] = viol
+        if viol:
+            path = self.write_replay(info)
+            self.violations.append({'what': '%s: %s' % (ob.name, viol[0]), 'replay': path, 'finding': None, 'obligation': ob.name})
+            return True
         return False
 
     def replay_counter_model(self, qualname, c, cfg, ob, seen, scope=None):
@@ -980,6 +1007,16 @@ def replay_file(pid, path):
     from .concrete import check_concrete, from_json
     from .models import FACTORIES
     world = build_world(plan)
+    if 'injected' in info:
+        c = world.contracts[info['function']]
+        viol = c.replay_injected(info['cfg'], info['injected'].get('raised'), info['injected'].get('site'))
+        for v in viol:
+            print("  still violates:", v)
+        if viol:
+            print("VIOLATION property=%s replay=%s" % (pid, path))
+            return 1
+        print("replay: the stored injected failure leaves the property intact on the current tree")
+        return 0
     if 'fragment' in info:
         c = world.contracts[info['fragment']]
         viol = c.replay_fragment(info['cfg'], info['fragment_state'])
